@@ -421,7 +421,7 @@ Proof.
   assert (SV : set_value te (dheap dst) (TPtr (TStruct (ty_of a))) (DPtr (Z.to_nat i) (ty_of a)) = Ok (DPtr (Z.to_nat i) (ty_of a)))
     by (cbn [set_value]; rewrite name_eqb_refl'; reflexivity).
   intros f Hf. pose proof (need_d_pos v). destruct f as [|f]; [lia|]. split; [|split].
-  - rewrite rf_S. unfold rf_step. cbn [app]. rewrite rs_ref, RR. cbn [bind]. rewrite SV. reflexivity.
+  - rewrite rf_S. apply rf_step_of_core. unfold rf_core. cbn [app]. rewrite rs_ref, RR. cbn [bind]. rewrite SV. reflexivity.
   - intros a0 ty fs E _. rewrite rd_S. cbn [app]. rewrite rd_ref. exact RR.
   - intros _ _. eexists. split; [rewrite rd_S; cbn [app]; rewrite rd_ref; exact RR|exact SV].
 Qed.
@@ -630,7 +630,7 @@ Proof.
     by (intros heap; cbn [set_value]; rewrite name_eqb_refl'; reflexivity).
   pose proof (need_d_pos (VStruct a ty fs)). destruct f as [|g]; [lia|].
   split; [|split].
-  - rewrite rf_S. unfold rf_step. rewrite (RS g eq_refl). cbn [bind]. rewrite SV. reflexivity.
+  - rewrite rf_S. apply rf_step_of_core. unfold rf_core. rewrite (RS g eq_refl). cbn [bind]. rewrite SV. reflexivity.
   - intros a0 ty0 fs0 _ _. exact RD.
   - intros _ _. eexists. split; [exact RD|apply SV].
 Qed.
@@ -658,7 +658,7 @@ Proof.
   { cbn [set_value]. rewrite name_eqb_refl'. rewrite HH, <- IL, nth_error_app2, Nat.sub_diag by lia. reflexivity. }
   pose proof (need_d_pos (VStruct 0 ty fs)). destruct f as [|g]; [lia|].
   split; [|split].
-  - rewrite rf_S. unfold rf_step. rewrite (RS g eq_refl). cbn [bind]. rewrite SV. reflexivity.
+  - rewrite rf_S. apply rf_step_of_core. unfold rf_core. rewrite (RS g eq_refl). cbn [bind]. rewrite SV. reflexivity.
   - intros a0 ty0 fs0 X NZ. inversion X; subst. contradiction.
   - intros _ _. eexists. split; [exact RD|exact SV].
 Qed.
@@ -679,7 +679,7 @@ Proof.
   exists (encode_binary bs), (DBytes bs), []. split; [apply ebytes_emit|]. split; [rewrite E; cbn; lia|]. split; [constructor|].
   intros _ dst rest I. exists dst. split; [exact I|]. split; [rewrite app_nil_r; reflexivity|].
   intros f Hf. cbn [need_d] in Hf. destruct f as [|[|f]]; try lia. split; [|split; [intros a ty fs X _; discriminate|]].
-  - rewrite rf_S. unfold rf_step. rewrite rl_S. unfold rl_step. rewrite E. cbn [app bind]. rewrite T, D. cbn [bind set_slice]. reflexivity.
+  - rewrite rf_S. apply rf_step_of_core. unfold rf_core. rewrite rl_S. unfold rl_step. rewrite E. cbn [app bind]. rewrite T, D. cbn [bind set_slice]. reflexivity.
   - intros _ _. eexists. split; [rewrite rd_S; apply rdv_binary|reflexivity].
 Qed.
 Lemma date_head s n : time_is_zero s n = false -> exists t tl, gencodeDate s n = t :: tl /\ (t = 74 \/ t = 75).
@@ -839,7 +839,7 @@ Proof.
   assert (RD : R_rd (readers_at te tm (S (S g))) dst (list_hdr ltn n ++ b2 ++ rest) = Ok (DSlice e ds, rest, dst')).
   { rewrite rd_S, D2', rl_S. exact D3. }
   split; [|split].
-  - rewrite rf_S. unfold rf_step. rewrite rl_S, D1. cbn [bind set_slice]. rewrite gtype_eqb_refl. reflexivity.
+  - rewrite rf_S. apply rf_step_of_core. unfold rf_core. rewrite rl_S, D1. cbn [bind set_slice]. rewrite gtype_eqb_refl. reflexivity.
   - intros a0 ty0 fs0 X _. discriminate.
   - intros _ _. eexists. split; [exact RD|]. cbn [set_value]. rewrite gtype_eqb_refl. reflexivity.
 Qed.
@@ -1026,7 +1026,7 @@ Proof.
   intros _ dst rest I. exists dst. split; [exact I|]. split; [rewrite app_nil_r; reflexivity|].
   intros f Hf. rewrite need_d_map in Hf. cbn [need_dentries] in Hf. destruct f as [|[|f]]; try lia.
   split; [|split; [intros a ty0 fs X _; discriminate|]].
-  - rewrite rf_S. unfold rf_step. rewrite rm_S. reflexivity.
+  - rewrite rf_S. apply rf_step_of_core. unfold rf_core. rewrite rm_S. reflexivity.
   - intros _ _. exists DNil. split; reflexivity.
 Qed.
 
@@ -1075,7 +1075,7 @@ Proof.
   destruct (map_dec (readers_at te tm g) dst ty kt vt (b2 ++ 90 :: rest) HM) as (_ & _ & RM & _).
   destruct (map_dec (readers_at te tm (S g)) dst ty kt vt (b2 ++ 90 :: rest) HM) as (_ & _ & _ & RDm).
   split; [|split].
-  - rewrite rf_S. unfold rf_step. rewrite rm_S, RM. apply MB. lia.
+  - rewrite rf_S. apply rf_step_of_core. unfold rf_core. rewrite rm_S, RM. apply MB. lia.
   - intros a0 ty0 fs0 X _. discriminate.
   - intros _ EP. cbn [elem_pos_ok] in EP. exists (DMapV kt vt des). split.
     + rewrite rd_S, (RDm EP). apply MB. lia.
@@ -1110,7 +1110,7 @@ Proof.
     match goal with H : in_f64 b |- _ => pose proof H as Hb; destruct (double_roundtrip b [] bs H E) as (d & D & Fq) end. rewrite app_nil_r in D.
     destruct (double_denotes b bs [] Hb E) as (t0 & tl0 & d0 & B0 & _).
     eapply (rt_leaf TF64 (VF64 b) st bs (DF64 d)); [apply dg_f64; exact Fq|intros; discriminate|exact C|rewrite B0; cbn; lia| |].
-    + intros R dst rest. unfold rf_step. rewrite (decode_double_ext bs d D rest). reflexivity.
+    + intros R dst rest. apply rf_step_of_core. unfold rf_core. rewrite (decode_double_ext bs d D rest). reflexivity.
     + intros f dst rest. exists (DF64 d). split; [rewrite rd_S; eapply rdv_double; eassumption|intros heap; reflexivity].
   - (* string *) inversion Hs; subst. cbn [write_data] in W. inversion W; subst st'.
     match goal with H : Forall valid_rune rs |- _ => pose proof H as V end.
@@ -1128,7 +1128,7 @@ Proof.
       { intros rest. pose proof (date_roundtrip s n rest ltac:(assumption) ltac:(assumption) Z0) as DR. rewrite E in DR. cbn [app] in DR.
         unfold decode_date in DR. cbn [read_tag bind] in DR. exact DR. }
       eapply (rt_leaf TTime (VTime s n) st _ (DTime s (n - n mod 1000000))); [apply dg_time; exact Z0|intros; discriminate|exact C|rewrite E; cbn; lia| |].
-      * intros R dst rest. rewrite E. cbn [app]. unfold rf_step. rewrite rs_date by exact T. rewrite DT. cbn [bind fst snd set_value]. reflexivity.
+      * intros R dst rest. rewrite E. cbn [app]. apply rf_step_of_core. unfold rf_core. rewrite rs_date by exact T. rewrite DT. cbn [bind fst snd set_value]. reflexivity.
       * intros f dst rest. rewrite E. cbn [app]. exists (DTime s (n - n mod 1000000)). split; [rewrite rd_S, rdv_date by exact T; rewrite DT; reflexivity|intros heap; reflexivity].
   - (* struct *)
     inversion Hs as [| | | | | | | | | |? ? ? c gfs NZ TA NL TM TE Vc HF VF LN NDB HK HU|? ? c gfs NL TM TE Vc HF VF LN NDB HK HU]; subst.
@@ -1182,7 +1182,7 @@ Proof.
   destruct (Inv_fill st' dst2 (dheap dst) (RList None) (RList (Some (DSlice e ds))) c2 J2 H2h eq_refl) as [IF HH]; [intros ty0 o X; discriminate|].
   exists (heap_set dst2 (length (dheap dst)) (RList (Some (DSlice e ds)))). split; [exact IF|]. split; [exact HH|].
   intros f Hf. destruct f as [|[|g]]; try lia.
-  rewrite rf_S. unfold rf_step. rewrite rl_S. unfold rl_step. cbn [app bind].
+  rewrite rf_S. apply rf_step_of_core. unfold rf_core. rewrite rl_S. unfold rl_step. cbn [app bind].
   change (gbinaryTag 85) with false. change (85 =? g_nilTag) with false. change (grefTag 85) with false.
   change (85 =? g_objectDefTag) with false. change (gtypedListTag 85) with true. cbv iota.
   unfold typed_list_step. rewrite B2. rewrite <- !app_assoc. rewrite read_type_str by exact V. cbn [bind].
